@@ -60,7 +60,8 @@ def cases(tier, seed, info):
                 for L in (0, 1, 8, 24, 40, 100):
                     items.append(dict(t='m2c00', sub=sub, ver=ver, L=L, k=rep))
         for creator in ('X', 'O', 'B'):
-            for proc in ('FIX0001', 'FIXBOOM', 'FIXEMPT', 'FIXJUNK', 'BMC0001', 'BMC0008', 'NOSUCH1'):
+            for proc in ('FIX0001', 'FIXBOOM', 'FIXEMPT', 'FIXJUNK', 'BMC0001', 'BMC0008', 'NOSUCH1',
+                         'FIXB%03d' % ((rep * 7 + 1) % 24), 'FIXB%03d' % ((rep * 7 + 4) % 24), 'FIXB%03d' % ((rep * 7 + 6) % 24)):
                 for plugins in (True, False):
                     items.append(dict(t='callout', creator=creator, proc=proc, plugins=plugins, k=rep))
     rng.shuffle(items)
